@@ -224,7 +224,7 @@ def gen_config(rng, nsvc=None, nparams=None, valid=True, imp="fx", scopes=True, 
     cfg = {}
     m = {}
     if rng.random() < 0.5:
-        m["pkg"] = rng.choice(["main", "gen", "mypkg"])
+        m["pkg"] = rng.choice(["main", "gen", "mypkg", "myPkg_2"])
     if rng.random() < 0.3:
         m["container_type"] = rng.choice(["Gontainer", "MyContainer", "c1"])
     if rng.random() < 0.3:
